@@ -1,11 +1,22 @@
 import CnbVerif.Driver.TestRunnerIO
 import CnbVerif.Spec.DockerGrammar
 import CnbVerif.Spec.PackGrammar
+import CnbVerif.Spec.PackInvocation
+import CnbVerif.Model.PackOutput
 /-!
 Driver glue for C17. Model observation: the full command log of the scenario as `Model/TestRunner` + `Model/Argv`
-predict it (exact argv), the app-dir snapshots pack saw, the temp dirs left. Spec verdict: the argv the *real* code
-produced is parsed by the reference docker/pack grammars and compared with the configuration of the case — the
-model is not consulted.
+predict it (exact argv), the app-dir snapshots pack saw, the temp dirs left; for a case with a script of tool results
+(6th field) also what every `build`/`rebuild` handed to the test (`Model/PackOutput`). Spec verdict: the argv the *real*
+code produced is parsed by the reference docker/pack grammars and compared with the configuration of the case, the
+`pack build` invocations are counted against the `build`/`rebuild` calls of the scenario, and the pack output the test
+was handed is compared with what the stand-in printed at that invocation — the model is not consulted.
+
+Case: fields 0-4 as for C16 (`Driver/TestRunnerIO`), optional field 5 = script: `-` or `,`-joined entries
+`<p|d><n>:<exit>:<stdout hex>:<stderr hex>` (the `n`-th invocation, 0-based, of pack / docker exits with `exit` after
+printing these bytes). A scripted case has no other injection and scripts every pack invocation the scenario can make.
+Observation of a scripted case: the five parts of C16/C17 followed by ` ctx=` (`<stdout hex>:<stderr hex>` of every
+`TestContext`, `/`-joined), ` panic=` (`-`, `other`, or `h<hex>` of a panic message of `build_internal`'s pack `match`),
+` inv=` (`<exit>:<stdout hex>:<stderr hex>` as recorded by the stand-in at every `pack build`, `?` if not scripted).
 -/
 namespace CnbVerif.DriverC17
 open CnbVerif CnbVerif.Argv CnbVerif.TestRunner CnbVerif.TestRunnerIO
@@ -17,12 +28,69 @@ def permEq {α} [DecidableEq α] : List α → List α → Bool
 
 def idx (what : String) (i : Nat) (why : String) : String := "fail:" ++ what ++ "[" ++ toString i ++ "]:" ++ why
 
-/-- the scenario is one C17 talks about: nothing injected, no panic act, every build proceeds to its closure -/
-def inScope (c : Case) : Bool :=
+/-! ### the script of tool results (field 5) -/
+
+abbrev Script := PackOutput.Script
+
+def parseScriptEntry (s : String) : Option (Prog × Nat × PackOutput.ToolOutput) :=
+  match s.splitOn ":" with
+  | [key, ex, so, se] =>
+    let keyP : Option (Prog × Nat) :=
+      match key.toList with
+      | 'p' :: r => (String.ofList r).toNat?.map (fun n => (Prog.pack, n))
+      | 'd' :: r => (String.ofList r).toNat?.map (fun n => (Prog.docker, n))
+      | _ => none
+    match keyP, ex.toNat?, hexDecode so, hexDecode se with
+    | some (p, n), some e, some so, some se => if e ≤ 255 then some (p, n, ⟨e, so, se⟩) else none
+    | _, _, _, _ => none
+  | _ => none
+
+def parseScript (s : String) : Option Script := allSome ((lst s ",").map parseScriptEntry)
+
+/-- the scripted result of the `n`-th invocation of a program (spec side: a plain look-up, first entry wins) -/
+def scripted (script : Script) (p : Prog) (n : Nat) : Option PackOutput.ToolOutput :=
+  match script with
+  | [] => none
+  | (p', n', t) :: r => if p' == p && n' == n then some t else scripted r p n
+
+def isSbom : Act → Bool
+  | .downloadSbom => true
+  | _ => false
+
+/-- Position of each build's `pack build` among the pack invocations, **as the property has it**: one `pack build` per
+`build`/`rebuild` call, one `pack sbom download` per `download_sbom_files`, in program order. Second component: how many pack
+invocations the whole scenario makes at most. -/
+def packIndices : List (BCase × List Act) → Nat → List Nat × Nat
+  | [], n => ([], n)
+  | (_, acts) :: r, n =>
+    let rest := packIndices r (n + 1 + (acts.filter isSbom).length)
+    (n :: rest.1, rest.2)
+
+/-- does this build's pack end with status 0: as scripted, else as the case's own pack switch says -/
+def packSucceeds (script : Script) (b : BCase) (n : Nat) : Bool :=
+  match scripted script .pack n with
+  | some t => t.exit == 0
+  | none => b.cfg.packResult == .ok
+
+/-- The `build`/`rebuild` calls the scenario makes, each with the acts of its closure that run and whether pack ended as the
+configuration expects: the chain up to and including the first build whose pack result is *not* the expected one — that call
+panics instead of running its closure, so nothing after it happens. -/
+def callsMade (script : Script) : List ((BCase × List Act) × Nat) → List (BCase × List Act × Bool)
+  | [] => []
+  | ((b, acts), n) :: r =>
+    if packSucceeds script b n == b.cfg.expectSuccess then (b, acts, true) :: callsMade script r else [(b, [], false)]
+
+def calls (c : Case) (script : Script) : List (BCase × List Act × Bool) :=
+  callsMade script (c.chain.zip (packIndices c.chain 0).1)
+
+/-- the scenario is one C17 talks about: nothing injected, no tool fails except a `pack build` (scripted failures of
+invocations the scenario never reaches do not count), no panic act, every closure that runs runs to its end -/
+def inScope (c : Case) (script : Script) : Bool :=
+  let (buildIdx, total) := packIndices c.chain 0
   (match c.inj with | .none => true | _ => false) &&
-  c.chain.all (fun (b, acts) =>
+  script.all (fun (p, n, t) => t.exit == 0 || (p == .pack && (buildIdx.contains n || n ≥ total))) &&
+  (calls c script).all (fun (b, acts, _) =>
     b.cfg.appDirValid && (platformOf b.cfg.triple).isSome &&
-    ((b.cfg.expectSuccess && b.cfg.packResult == .ok) || (!b.cfg.expectSuccess && b.cfg.packResult == .nonzero)) &&
     acts.all (fun a => match a with
       | .panic => false
       | .startContainer cfg cas => cas.all (fun ca => match ca with
@@ -116,28 +184,65 @@ def firstSome : List (Option String) → Option String
 
 def zipIdx {α} (l : List α) : List (Nat × α) := (List.range l.length).zip l
 
+/-- the parts of a scripted case's observation that say what the test was handed -/
+structure Extras where
+  /-- `pack_stdout`, `pack_stderr` of every `TestContext`, in order -/
+  ctx : List (Bytes × Bytes)
+  /-- no panic / a panic that is not about the pack result / the message of the panic about the pack result -/
+  panic : Option (Option Bytes)
+  /-- per `pack build` invocation: exit status, stdout, stderr as the stand-in recorded them (none: it did not) -/
+  inv : List (Option (Nat × Bytes × Bytes))
+
+/-- The pack output handed to the test is that of the build's one invocation: the texts of the `TestContext` when pack ended
+as expected, quoted in the panic message when it did not. Judged against what the stand-in recorded at that invocation. -/
+def checkHandOver (cs : List (BCase × List Act × Bool)) (x : Extras) : Option String :=
+  if x.ctx.length != (cs.filter (·.2.2)).length then some "fail:pack-output:contexts"
+  else firstSome ((zipIdx (cs.zip x.inv)).map (fun (i, (_, _, asExpected), inv) =>
+    match inv with
+    | none => none
+    | some (_, so, se) =>
+      if asExpected then
+        match x.ctx[i]? with
+        | some (cso, cse) =>
+          if !Spec.PackInv.sameText so cso then some (idx "pack-output" i "stdout")
+          else if !Spec.PackInv.sameText se cse then some (idx "pack-output" i "stderr")
+          else none
+        | none => some (idx "pack-output" i "missing")
+      else
+        match x.panic with
+        | some (some m) =>
+          if Spec.PackInv.quotedIn so m && Spec.PackInv.quotedIn se m then none else some (idx "pack-output" i "panic-message")
+        | _ => some (idx "pack-output" i "panic-message")))
+
 /-- the verdict on an observation of the real code -/
-def verdict (c : Case) (o : Obs) : String :=
-  if !inScope c then "ok"
-  else if o.exit != "ok" then "fail:scenario-did-not-complete:" ++ o.exit
-  else if !o.fixtureSame then "fail:fixture-modified"
+def verdict (c : Case) (script : Script) (o : Obs) (x : Option Extras) : String :=
+  if !inScope c script then "ok"
   else
+    let cs := calls c script
+    let unexpected := cs.any (fun (_, _, asExpected) => !asExpected)
+    -- more `pack build` invocations than `build`/`rebuild` calls the scenario can make at all: whatever else happened
+    if (o.log.filter (fun (p, a) => p == .pack && a.head? == some w!"build")).length > cs.length then "fail:pack-build:count"
+    else if !unexpected && o.exit != "ok" then "fail:scenario-did-not-complete:" ++ o.exit
+    else if unexpected && o.exit != "panic" then "fail:unexpected-pack-result-did-not-panic:" ++ o.exit
+    else if !o.fixtureSame then "fail:fixture-modified"
+    else
     let builds := (o.log.filter (fun (p, a) => p == .pack && a.head? == some w!"build")).map (·.2)
     let runs := (o.log.filter (fun (p, a) => p == .docker && a.head? == some w!"run")).map (·.2)
     let execs := (o.log.filter (fun (p, a) => p == .docker && a.head? == some w!"exec")).map (·.2)
-    let acts := c.chain.flatMap (·.2)
+    let acts := cs.flatMap (·.2.1)
     let runActs := acts.filter (fun a => match a with | .startContainer .. => true | .runShell _ => true | _ => false)
     let execCmds := acts.flatMap (fun a => match a with
       | .startContainer _ cas => cas.filterMap (fun ca => match ca with | .exec cmd => some cmd | _ => none)
       | _ => [])
-    if builds.length != c.chain.length then "fail:pack-build:count"
+    -- one `pack build` invocation per `build`/`rebuild` call
+    if builds.length != cs.length then "fail:pack-build:count"
     else if runs.length != runActs.length then "fail:docker-run:count"
     else if execs.length != execCmds.length then "fail:docker-exec:count"
     else
       let image : Bytes := match builds with
         | a :: _ => (match Spec.Pack.parsePackBuild a with | some pb => pb.image | none => [])
         | [] => []
-      let r1 := firstSome ((zipIdx (c.chain.zip builds)).map (fun (i, (b, _), args) => checkBuild i c.fixture b args (o.snaps[i]?)))
+      let r1 := firstSome ((zipIdx (cs.zip builds)).map (fun (i, (b, _), args) => checkBuild i c.fixture b args (o.snaps[i]?)))
       let r2 := firstSome ((zipIdx (runActs.zip runs)).map (fun (j, a, args) => match a with
         | .startContainer cfg _ => checkStart j image cfg args
         | .runShell cmd => checkShell j image cmd args
@@ -146,17 +251,78 @@ def verdict (c : Case) (o : Obs) : String :=
         match Spec.Docker.parseDockerExec args with
         | some e => if e.command == [w!"launcher", cmd] ∧ e.other.isEmpty then none else some (idx "docker-exec" k "command")
         | none => some (idx "docker-exec" k "unparsable")))
-      match firstSome [r1, r2, r3] with
+      let r4 := match x with
+        | some x => checkHandOver cs x
+        | none => none
+      match firstSome [r1, r2, r3, r4] with
       | some f => f
       | none => "ok"
 
+/-! ### scripted cases: model observation, decoding -/
+
+def renderHanded (script : Script) (c : Case) (r : Outcome × St) : String :=
+  let hs := PackOutput.handOvers script c.scenario r.2.log
+  let ctx := hs.filterMap (fun h => match h with
+    | .context so se => some (hexEncode so ++ ":" ++ hexEncode se)
+    | _ => none)
+  let panic := match hs.findSome? (fun h => match h with | .panic m => some m | _ => none) with
+    | some m => "h" ++ hexEncode m
+    | none => if r.1 == .ok then "-" else "other"
+  let inv := (PackOutput.packBuildsIn r.2.log 0).filterMap (fun (n, e) =>
+    if e.res == .notFound then none
+    else some (match PackOutput.Script.find script .pack n with
+      | some t => toString t.exit ++ ":" ++ hexEncode t.stdout ++ ":" ++ hexEncode t.stderr
+      | none => "?"))
+  " ctx=" ++ dash ctx "/" ++ " panic=" ++ panic ++ " inv=" ++ dash inv "/"
+
+def stripPrefix (s p : String) : Option String :=
+  if s.startsWith p then some ((s.drop p.length).toString) else none
+
+def parseExtras (ctx pn inv : String) : Option Extras :=
+  let ctxP : Option (List (Bytes × Bytes)) := (stripPrefix ctx "ctx=").bind (fun s =>
+    allSome ((lst s "/").map (fun e => match e.splitOn ":" with
+      | [a, b] => (match hexDecode a, hexDecode b with | some a, some b => some (a, b) | _, _ => none)
+      | _ => none)))
+  let pnP : Option (Option (Option Bytes)) := (stripPrefix pn "panic=").bind (fun s =>
+    if s = "-" then some none else if s = "other" then some (some none)
+    else ((dropPrefix s 'h').bind hexDecode).map (fun m => some (some m)))
+  let invP : Option (List (Option (Nat × Bytes × Bytes))) := (stripPrefix inv "inv=").bind (fun s =>
+    allSome ((lst s "/").map (fun e =>
+      if e = "?" then some none
+      else match e.splitOn ":" with
+        | [x, a, b] => (match x.toNat?, hexDecode a, hexDecode b with | some x, some a, some b => some (some (x, a, b)) | _, _, _ => none)
+        | _ => none)))
+  match ctxP, pnP, invP with
+  | some c, some p, some i => some ⟨c, p, i⟩
+  | _, _, _ => none
+
 def handle (fields : List String) (obs : String) : String × String :=
-  match parseCase fields with
-  | none => ("bad-op", "bad-op")
-  | some c =>
-    let model := renderRun c (run (oracleOf c.inj) c.scenario)
-    match parseObs obs with
-    | none => (model, "fail:unparsable-observation")
-    | some o => (model, verdict c o)
+  match fields with
+  | [_, _, _, _, _] =>
+    (match parseCase fields with
+    | none => ("bad-op", "bad-op")
+    | some c =>
+      let model := renderRun c (run (oracleOf c.inj) c.scenario)
+      match parseObs obs with
+      | none => (model, "fail:unparsable-observation")
+      | some o => (model, verdict c [] o none))
+  | [f0, f1, f2, f3, f4, f5] =>
+    (match parseCase [f0, f1, f2, f3, f4], parseScript f5 with
+    | some c, some script =>
+      let total := (packIndices c.chain 0).2
+      let injNone := match c.inj with | .none => true | _ => false
+      -- a scripted case has no other injection and scripts every pack invocation the scenario can make
+      if !injNone || !((List.range total).all (fun n => (scripted script .pack n).isSome)) then ("bad-op", "bad-op")
+      else
+        let r := run (PackOutput.scriptOracle script (oracleOf c.inj)) c.scenario
+        let model := renderRun c r ++ renderHanded script c r
+        match obs.splitOn " " with
+        | [e, l, t, f, sn, ctx, pn, inv] =>
+          (match parseObs (String.intercalate " " [e, l, t, f, sn]), parseExtras ctx pn inv with
+          | some o, some x => (model, verdict c script o (some x))
+          | _, _ => (model, "fail:unparsable-observation"))
+        | _ => (model, "fail:unparsable-observation")
+    | _, _ => ("bad-op", "bad-op"))
+  | _ => ("bad-op", "bad-op")
 
 end CnbVerif.DriverC17
